@@ -8,7 +8,8 @@ Inductive op :=
 | OScAdd (n : Z) | OScDrop (n : Z) | OScResize (w : Z) | OScFullRange (k : Z) | OScNewFull (k m : Z) | OScMin (m : Z)
 | OBAdd (it : item) | OBGet (n : Z) | OBResize (n : Z) | OBDrop (n : Z) | OBUnshift
 | OGAdd (name : Z) (it : item) | OGStart (w : Z) (sh : bool) | OGDrop (n : Z) | OGResize (w : Z) | OGGen (nl : Z)
-| OCRecv (name : Z) (it : item) | OCInit (name : Z).
+| OCRecv (name : Z) (it : item) | OCInit (name : Z)
+| OCUp (name : Z) (it : item).      (* kind 4: an upload through the HTTP handler *)
 
 (** [ObsHash n h]: an observation of [n] numbers given by its polynomial hash (long states) *)
 Inductive obs := ObsOk (l : list Z) | ObsHash (n h : Z) | ObsPanic (site : string).
@@ -17,7 +18,8 @@ Inductive obs := ObsOk (l : list Z) | ObsHash (n h : Z) | ObsPanic (site : strin
 Definition obs_hash (l : list Z) : Z :=
   Uint63.to_Z (fold_left (fun acc x => Uint63.add (Uint63.mul acc 1000003%uint63) (Uint63.of_Z (x + 2))) l 0%uint63).
 
-(** kind 0 seqCounters, 1 segDataBuffer, 2 segmentTimelineGenerator, 3 channel *)
+(** kind 0 seqCounters, 1 segDataBuffer, 2 segmentTimelineGenerator, 3 channel,
+    4 receiver behind its router (channel + stored files) *)
 Record c17case := {
   c_id : Z;
   c_kind : Z;
@@ -29,7 +31,23 @@ Record c17case := {
   c_obs : list obs
 }.
 
-Inductive mstate := MSc (s : sc) | MB (b : sdb) | MG (g : gen) | MC (c : chan).
+Inductive mstate := MSc (s : sc) | MB (b : sdb) | MG (g : gen) | MC (c : chan)
+| ML (c : chan) (files : list (Z * Z)).     (* files: (track, number), sorted *)
+
+(** the upload callback: create <track>/<nr>, then delete <track>/<nr - maxNrBufSegs> when
+    maxNrBufSegs is known (uint32 arithmetic) *)
+Definition pair_ltb (a b : Z * Z) : bool := (fst a <? fst b) || ((fst a =? fst b) && (snd a <? snd b)).
+Definition pair_eqb (a b : Z * Z) : bool := (fst a =? fst b) && (snd a =? snd b).
+Fixpoint file_add (f : Z * Z) (l : list (Z * Z)) : list (Z * Z) :=
+  match l with
+  | [] => [f]
+  | x :: t => if pair_eqb f x then l else if pair_ltb f x then f :: l else x :: file_add f t
+  end.
+Definition file_del (f : Z * Z) (l : list (Z * Z)) : list (Z * Z) := filter (fun x => negb (pair_eqb f x)) l.
+Definition files_upload (c : chan) (name seq : Z) (files : list (Z * Z)) : list (Z * Z) :=
+  let f1 := file_add (name, seq) files in
+  if 0 <? ch_maxBuf c then file_del (name, u32 (seq - ch_maxBuf c)) f1 else f1.
+Definition flat_files (l : list (Z * Z)) : list Z := flat_map (fun f => [fst f; snd f]) l.
 
 Definition zb (b : bool) : Z := if b then 1 else 0.
 
@@ -71,7 +89,8 @@ Definition init_state (c : c17case) : mstate :=
   | 0 => MSc (sc_new (c_w c))
   | 1 => MB (sdb_new (c_w c))
   | 2 => MG (gen_new (c_w c))
-  | _ => MC (chan_new (c_asets c) (c_w c))
+  | 3 => MC (chan_new (c_asets c) (c_w c))
+  | _ => ML (chan_new (c_asets c) (c_w c)) []
   end.
 
 Definition opt_item (o : option item) : list Z :=
@@ -108,6 +127,16 @@ Definition step (cs : c17case) (st : mstate) (o : op) : res (mstate * list Z) :=
       | Some t => let c' := chan_register c t in Ok (MC c', ch_master c' :: flat_chan (c_ntracks cs) c')
       | None => Err "unknown track"
       end
+  | ML c files, OCInit name =>
+      match find_track name (c_tracks cs) with
+      | Some t => let c' := chan_register c t in
+                  Ok (ML c' files, [200; 0] ++ flat_chan (c_ntracks cs) c' ++ flat_files files)
+      | None => Err "unknown track"
+      end
+  | ML c files, OCUp name it =>
+      let files' := files_upload c name (i_seq it) files in
+      do r <- chan_received c name it;
+      Ok (ML (o_chan r) files', 200 :: flat_pub (o_pub r) ++ flat_chan (c_ntracks cs) (o_chan r) ++ flat_files files')
   | _, _ => Err "operation does not fit the kind of case"
   end.
 
